@@ -21,6 +21,7 @@ ASSUMPTIONS = ["a selection that exceeds the per-case time limit (2 s) is inconc
                "verdicts are obtained following the documented protocol (sanitize; with simulation: UnionDisjointStates + ComputeSimulation(n) + SetSimulation)",
                "correspondence is sampling: an input shape no generator produces is not covered; algorithms with simulation/caches are tied at function level only"]
 FLAVOURS = {"quick": ["plain"], "thorough": ["plain", "asan"]}
+SANITIZER_CAP = 6000
 
 CORPUS = [
     "incl T 1 0 1 0 0 0 T 1 0 1 1 0 0",                                   # D1: {a} vs {b}
@@ -106,16 +107,16 @@ def cases(rng, tier):
     if tier == "quick":
         cs = cs[:len(CORPUS)] + rng.sample(cs[len(CORPUS):], 4000) if False else cs
     for (a, b) in targeted(rng): cs.append(("incl %s %s" % (a.fmt(), b.fmt()), "targeted"))
-    for (a, b) in split_family(rng, 5000 if tier == "quick" else 40000): cs.append(("incl %s %s" % (a.fmt(), b.fmt()), "targeted_split"))
-    for _ in range(1200 if tier == "quick" else 15000):   # a positive answer obtained under a cyclic hypothesis that is refuted later, asked for again
+    for (a, b) in split_family(rng, 5000 if tier == "quick" else 20000): cs.append(("incl %s %s" % (a.fmt(), b.fmt()), "targeted_split"))
+    for _ in range(1200 if tier == "quick" else 8000):   # a positive answer obtained under a cyclic hypothesis that is refuted later, asked for again
         a, b = gen.coinductive_trap_pair(rng)
         cs.append(("incl %s %s" % (a.fmt(), b.fmt()), "coinductive_trap"))
-    for _ in range(400 if tier == "quick" else 8000):
+    for _ in range(400 if tier == "quick" else 4000):
         a, b = gen.defective_copies_pair(rng)
         cs.append(("incl %s %s" % (a.fmt(), b.fmt()), "defective_copies"))
     for (a, b) in tall_family(rng, 3 if tier == "quick" else 60): cs.append(("incl %s %s" % (a.fmt(), b.fmt()), "tall_sticks"))
-    for (a, b) in shared_family(rng, 1500 if tier == "quick" else 15000): cs.append(("incl %s %s" % (a.fmt(), b.fmt()), "shared_table"))
-    n = 2000 if tier == "quick" else 40000
+    for (a, b) in shared_family(rng, 1500 if tier == "quick" else 8000): cs.append(("incl %s %s" % (a.fmt(), b.fmt()), "shared_table"))
+    n = 2000 if tier == "quick" else 20000
     for _ in range(n):
         sg = rng.choice([gen.SIGMA, gen.SIGMA, gen.SIGMA3])
         a = gen.rand_ta_sized(rng, 4, 8, sigma=sg); b = gen.rand_ta_sized(rng, 4, 9, sigma=sg)
